@@ -13,8 +13,10 @@ The spec stays inside the persistable domain of the SQL dialect:
     class kinds unique ignoring case, attribute names unique per class ignoring case
   * attribute types: the five core types in any letter case
   * populations whose referential values resolve: every source instance is linked to at most one target
-    per association; identifying attributes of every instance of a referred-to class carry non-null values
-    that are unique within the class; identifying attributes are never referential themselves
+    per association (in a reflexive association possibly to itself); single identifying attributes of every
+    instance of a referred-to class carry non-null values that are unique within the class; composite keys
+    (2-3 attributes of one type) carry non-null value TUPLES that are unique within the class, drawn from a tiny
+    pool so that tuples which are permutations of each other occur; identifying attributes are never referential
 """
 import decimal
 from collections import namedtuple
@@ -192,8 +194,23 @@ def gen_spec(rng, big=False):
         relno[0] += rng.choice([1, 1, 2, 9, 10])
         return n
 
-    def mk_assoc(rel, src_ci, tgt_ci, nkeys, src_many, src_cond, tgt_many, tgt_cond, src_phrase, tgt_phrase):
-        tgt = key_attrs(tgt_ci, nkeys)
+    ngroups = [0]
+
+    def composite_key_attrs(ci, n):
+        """n new identifying attributes of ONE type forming a composite key whose value tuples come from a tiny pool,
+        so that tuples which are permutations of each other occur among the instances"""
+        c = work[ci]
+        core = rng.choice(['INTEGER', 'INTEGER', 'STRING', 'UNIQUE_ID'])
+        ngroups[0] += 1
+        out = []
+        for _ in range(n):
+            a = {'name': gen_identifier(rng, c['names']), 'type': gen_type(rng, core), 'role': 'ckey', 'group': ngroups[0]}
+            c['attrs'].insert(rng.randint(0, len(c['attrs'])), a)
+            out.append(a)
+        return out
+
+    def mk_assoc(rel, src_ci, tgt_ci, nkeys, src_many, src_cond, tgt_many, tgt_cond, src_phrase, tgt_phrase, composite=False):
+        tgt = composite_key_attrs(tgt_ci, nkeys) if composite else key_attrs(tgt_ci, nkeys)
         c = work[src_ci]
         src_names = []
         for t in tgt:
@@ -206,7 +223,19 @@ def gen_spec(rng, big=False):
                                'phrase': tgt_phrase}})
 
     for _ in range(rng.randint(0, 4)):
-        shape = rng.choice(['simple', 'simple', 'reflexive', 'assoc-class', 'subtype'])
+        shape = rng.choice(['simple', 'simple', 'reflexive', 'assoc-class', 'subtype', 'composite', 'composite'])
+        if shape == 'composite':
+            # an association over a composite key (2-3 attributes of one type), possibly reflexive
+            t = rng.randrange(ncls)
+            s_ = rng.randrange(ncls)
+            if s_ == t:
+                p1 = gen_phrase(rng)
+                p2 = p1 + ' back'
+            else:
+                p1 = p2 = ''
+            mk_assoc(next_rel(), s_, t, rng.choice([2, 2, 3]), rng.random() < 0.7, True, False, rng.random() < 0.5 or s_ == t,
+                     p1, p2, composite=True)
+            continue
         if shape == 'simple' and ncls >= 2:
             s, t = rng.sample(range(ncls), 2)
             ph = rng.random() < 0.25
@@ -255,12 +284,44 @@ def gen_spec(rng, big=False):
     for ci in range(ncls):
         order += [ci] * rng.randint(0, maxrows)
     rng.shuffle(order)
+    POOLS = {'INTEGER': [1, 2, 3, -1], 'STRING': ['a', 'b', "'", 'ab'], 'UNIQUE_ID': [1, 2, 3, 2 ** 64]}
+    tuples = {}          # (class, group) -> unused value tuples, a tuple directly followed by a permutation of it
+
+    def next_tuple(ci, group, cores):
+        key = (ci, group)
+        if key not in tuples:
+            import itertools
+            allt = list(itertools.product(POOLS[cores[0]], repeat=len(cores)))
+            rng.shuffle(allt)
+            seen, seq = set(), []
+            for t in allt:
+                if t in seen:
+                    continue
+                seen.add(t)
+                seq.append(t)
+                perms = [p for p in set(itertools.permutations(t)) if p not in seen]
+                perms.sort(key=repr)
+                rng.shuffle(perms)
+                for p in perms[:2]:
+                    seen.add(p)
+                    seq.append(p)
+            tuples[key] = seq
+        return tuples[key].pop(0)
+
     for ci in order:
         vals = []
+        groupvals = {}
+        for a in work[ci]['attrs']:
+            if a['role'] == 'ckey' and a['group'] not in groupvals:
+                members = [b for b in work[ci]['attrs'] if b.get('group') == a['group']]
+                groupvals[a['group']] = dict(zip([id(b) for b in members],
+                                                 next_tuple(ci, a['group'], [b['type'].upper() for b in members])))
         for ai, a in enumerate(work[ci]['attrs']):
             core = a['type'].upper()
             if a['role'] == 'ref':
                 vals.append(None)            # referential: read through the link
+            elif a['role'] == 'ckey':
+                vals.append(groupvals[a['group']][id(a)])
             elif a['role'] == 'key':
                 vals.append(gen_key_value(rng, core, used.setdefault((ci, ai), set())))
             else:
@@ -280,11 +341,12 @@ def gen_spec(rng, big=False):
             if rng.random() < 0.3:
                 continue                     # stays unlinked
             cands = [t for t in tgts if (a['src']['many'] or load.get(t, 0) == 0)]
-            if a['src']['ci'] == a['tgt']['ci']:
-                cands = [t for t in cands if t != s]
             if not cands:
                 continue
-            t = rng.choice(cands)
+            if a['src']['ci'] == a['tgt']['ci'] and s in cands and rng.random() < 0.35:
+                t = s                        # an instance that refers to itself (e.g. a root that is its own parent)
+            else:
+                t = rng.choice(cands)
             load[t] = load.get(t, 0) + 1
             links.append({'assoc': ai, 'src': s, 'tgt': t})
 
